@@ -12,7 +12,7 @@ theorem front_of_node {s : St} {d : Key} {nd : Node} (h : s.nodes d = some nd) :
     recomputed from the callees and all fingerprints are refreshed (`f1q`).  Some non-firewall callee's
     set differs from the fingerprint seen (that is why the set is recomputed). -/
 theorem Inv.setMoved {p : Program} {s : St} (inv : Inv p s) {k : Key} {n : Node}
-    (hk : s.nodes k = some n)
+    (hk : s.nodes k = some n) (hkp : n.kind ≠ .projection) (hnv : n.lastVerified ≠ s.epoch)
     (hdeps : ∀ d o, (d, o) ∈ n.deps → ∃ nd, s.nodes d = some nd ∧ nd.value = o ∧ Solid s d)
     (hw : ∃ d o nd, (d, o) ∈ n.deps ∧ s.nodes d = some nd ∧ nd.kind ≠ .firewall ∧ nd.tfc ≠ n.seen d) :
     let n' : Node := { n with lastVerified := s.epoch, tfc := recomputeTfc s n.deps, seen := tfcOf s }
@@ -23,7 +23,7 @@ theorem Inv.setMoved {p : Program} {s : St} (inv : Inv p s) {k : Key} {n : Node}
   have hns : ¬ Solid s k := by
     intro h
     cases h with
-    | mk _ n0 h0 _ hval _ =>
+    | mk _ n0 h0 _ _ hval _ =>
       rw [hk] at h0; cases h0
       obtain ⟨nd, hnd, _, hacc⟩ := hval wd wo wm
       rw [wnode] at hnd; cases hnd
@@ -39,13 +39,14 @@ theorem Inv.setMoved {p : Program} {s : St} (inv : Inv p s) {k : Key} {n : Node}
   obtain ⟨dk, hpk, hkk, hleaf⟩ := inv.kind k n hk
   have hkin : n.kind ≠ .input := fun h => by rw [(hleaf (Or.inl h)).1] at wm; cases wm
   have hkex : n.kind ≠ .external := fun h => by rw [(hleaf (Or.inr h)).1] at wm; cases wm
-  have hcase : (n.kind = .firewall ∧ n'.value = n.value) ∨ (n.kind = .normal ∧ ¬ NGood s k) := by
+  have hcase : (n.kind = .firewall ∧ n'.value = n.value) ∨
+      (n.kind = .projection ∧ n'.value = n.value ∧ n'.tfc = n.tfc) ∨ (n.kind = .normal ∧ ¬ NGood s k) := by
     cases hkn : n.kind with
     | input => exact absurd hkn hkin
     | external => exact absurd hkn hkex
-    | projection => exact absurd hkn (inv.noProj k n hk)
+    | projection => exact absurd hkn hkp
     | firewall => exact Or.inl ⟨rfl, rfl⟩
-    | normal => exact Or.inr ⟨rfl, hng⟩
+    | normal => exact Or.inr (Or.inr ⟨rfl, hng⟩)
   have n3k : (setNode s k n').nodes k = some n' := by simp [setNode]
   have n3o : ∀ x, x ≠ k → (setNode s k n').nodes x = s.nodes x := by
     intro x hx; simp [setNode, hx]
@@ -73,10 +74,24 @@ theorem Inv.setMoved {p : Program} {s : St} (inv : Inv p s) {k : Key} {n : Node}
       · subst e; rw [n3k] at hx; cases hx
         exact ⟨dk, hpk, hkk, fun h => by rcases h with h | h; exact absurd h hkin; exact absurd h hkex⟩
       · rw [n3o x e] at hx; exact inv.kind x nx hx
-    · intro x nx hx
+    · intro x nx hx hkx d o nd' hm hnd'
       by_cases e : x = k
-      · subst e; rw [n3k] at hx; cases hx; exact inv.noProj x n hk
-      · rw [n3o x e] at hx; exact inv.noProj x nx hx
+      · subst e; rw [n3k] at hx; cases hx; exact absurd hkx hkp
+      · rw [n3o x e] at hx
+        obtain ⟨_, nd, hnd⟩ := inv.down x nx hx d o hm
+        obtain ⟨nd'', hnd'', hkd, _⟩ := depNode d nd hnd
+        rw [hnd'] at hnd''; cases hnd''
+        rw [hkd]; exact inv.pjFw x nx hx hkx d o nd hm hnd
+    · intro x nx hx hkx d o nd' hm hnd' hne
+      by_cases e : x = k
+      · subst e; rw [n3k] at hx; cases hx; exact absurd hkx hkp
+      · rw [n3o x e] at hx
+        by_cases ed : d = k
+        · subst ed
+          rw [n3k] at hnd'; cases hnd'
+          exact inv.pjBroken x nx hx hkx d o n hm hk hne
+        · rw [n3o d ed] at hnd'
+          exact inv.pjBroken x nx hx hkx d o nd' hm hnd' hne
     · intro x nx hx d o hm
       have h0 : ∃ nx0, s.nodes x = some nx0 ∧ nx.deps = nx0.deps := by
         by_cases e : x = k
@@ -116,9 +131,9 @@ theorem Inv.setMoved {p : Program} {s : St} (inv : Inv p s) {k : Key} {n : Node}
         refine ⟨fun hf => ?_, fun hnm f hf => ?_⟩
         · exact mem_recomputeTfc.2 ⟨d, o, hm, by rw [front_of_node hnd', hf]; simp [contrib]⟩
         · refine mem_recomputeTfc.2 ⟨d, o, hm, ?_⟩
-          rw [front_of_node hnd', hnm]
           have hf' : f ∈ tfcOf s d := hf
-          simpa [contrib, tfcOf, hnd'] using hf'
+          rw [front_of_node hnd']
+          rcases hnm with hnm | hnm <;> rw [hnm] <;> simpa [contrib, tfcOf, hnd'] using hf'
       · rw [n3o x e] at hx
         obtain ⟨_, nd, hnd⟩ := inv.down x nx hx d o hm
         obtain ⟨nd'', hnd'', hkd, _⟩ := depNode d nd hnd
@@ -128,7 +143,7 @@ theorem Inv.setMoved {p : Program} {s : St} (inv : Inv p s) {k : Key} {n : Node}
     · intro x nx hx hvx
       by_cases e : x = k
       · subst e; rw [n3k] at hx; cases hx
-        refine Solid.mk x n' n3k (fun _ => hvx) ?_ ?_
+        refine Solid.mk x n' n3k (fun _ => hvx) (fun _ => Or.inl hvx) ?_ ?_
         · intro d o hm
           obtain ⟨nd, hnd, hvd, _⟩ := hdeps d o hm
           refine ⟨nd, by rw [n3o d (depLt d o hm)]; exact hnd, hvd, fun _ => ?_⟩
@@ -152,8 +167,9 @@ theorem Inv.setMoved {p : Program} {s : St} (inv : Inv p s) {k : Key} {n : Node}
         by_cases ey : y = k
         · subst ey
           rw [hk] at hny; cases hny
-          rcases hcase with ⟨hf, _⟩ | ⟨hnm, hng'⟩
+          rcases hcase with ⟨hf, _⟩ | ⟨hf, _⟩ | ⟨hnm, hng'⟩
           · exact ⟨n', n3k, hvy, fun h => absurd hf h, fun h => by rw [show n'.kind = n.kind from rfl, hf] at h; cases h⟩
+          · exact absurd hf hkp
           · exact absurd (hgood hnm) hng'
         · exact ⟨ny, by rw [n3o y ey]; exact hny, hvy, hacc, fun h => ng y (hgood h) ey⟩
   have hin : inputsOf s3 = inputsOf s := by
@@ -168,10 +184,17 @@ theorem Inv.setMoved {p : Program} {s : St} (inv : Inv p s) {k : Key} {n : Node}
     by_cases e : x = k
     · subst e; rw [n3k, hk]
     · rw [n3o x e]
-  refine ⟨i3, ⟨e3, hin, by simp only [extOf, hpin, w3], w3, ?_, ?_, ?_⟩, fun d o hm => ?_⟩
+  refine ⟨i3, ⟨e3, hin, by simp only [extOf, hpin, w3], w3, ?_, ?_, ?_, ?_, ?_⟩, fun d o hm => ?_⟩
   · intro x nx hsx hx
     have : x ≠ k := fun e => hns (e ▸ hsx)
-    exact ⟨nx, by rw [n3o x this]; exact hx, rfl, rfl, rfl, rfl, rfl⟩
+    exact ⟨nx, by rw [n3o x this]; exact hx, rfl, rfl, rfl, rfl, rfl, id⟩
+  · intro x nx hx hvx
+    have : x ≠ k := fun e => by subst e; rw [hk] at hx; cases hx; exact hnv hvx
+    exact ⟨nx, by rw [n3o x this]; exact hx, rfl, rfl⟩
+  · intro x nx' hx' hp
+    by_cases e : x = k
+    · subst e; rw [n3k] at hx'; cases hx'; exact ⟨n, hk, Or.inl hp⟩
+    · exact ⟨nx', by rw [← n3o x e]; exact hx', Or.inl hp⟩
   · intro x
     by_cases e : x = k
     · subst e; exact Or.inr ⟨n', n3k, e3.symm⟩
